@@ -51,6 +51,7 @@ class Tracer:
         self.calls = {}
         self.hit = {}
         self.total = {}
+        self.unresolved = set()
         self.active = False
 
     def start(self):
@@ -64,10 +65,11 @@ class Tracer:
         for spec in self.anchors:
             try:
                 codes = resolve(spec)
-            except Exception:  # noqa: BLE001  anchor renamed in a refactoring: reported as never reached
+            except Exception:  # noqa: BLE001  anchor renamed / removed in a refactoring: reported as unresolved, not as "never reached"
                 self.calls[spec] = 0
                 self.hit[spec] = set()
                 self.total[spec] = 0
+                self.unresolved.add(spec)
                 continue
             self.calls[spec] = 0
             self.hit[spec] = set()
@@ -103,7 +105,8 @@ class Tracer:
             self.active = False
 
     def report(self):
-        return {s: {"calls": self.calls.get(s, 0), "lines_hit": sorted(self.hit.get(s, ())), "lines_total": self.total.get(s, 0)}
+        return {s: {"calls": self.calls.get(s, 0), "lines_hit": sorted(self.hit.get(s, ())), "lines_total": self.total.get(s, 0),
+                    "resolved": s not in self.unresolved}
                 for s in self.anchors}
 
 
